@@ -117,7 +117,10 @@ def runCase (j : Json) : Except String Json := do
     let scs ← scs.toList.mapM getSc
     let vals ← (← fld j "vals").getArr?
     let vals ← vals.toList.mapM getLeaf
-    let items := updateWithNewValues scs vals
+    let own ← match j.getObjVal? "own" with
+      | .ok o => do let a ← o.getArr?; a.toList.mapM getLeaf
+      | .error _ => pure []
+    let items := updateWithNewValuesFull scs own vals
     let f := format items
     return Json.mkObj [("items", Json.arr (items.map itemJson).toArray), ("text", f.text),
       ("words", Json.arr (f.words.map wordJson).toArray),
